@@ -9,7 +9,7 @@ multiple of it, so the float arithmetic of the real loop is exact and equals the
 
 Everything outside the loop is a parameter (`Env`), chosen adversarially:
   * `adv k`   — the k-th `time.time()` of the loop returns a clock that moved on by `adv k + 1 ≥ 1` ticks,
-  * `dur k`, `out k` — duration and outcome of the k-th poll function call (`doPoll`, `read_*`, `initialReads`),
+  * `dur k`, `out k` — duration and outcome of the k-th call of the thread (`doPoll`, `read_*`, `initialReads`, `writeInitParams`),
   * `touch k` — parameter time stamps set while the k-th call ran (`announceUpdate`),
   * `ext k`   — what other threads did to the `PollInfo`s while the k-th call ran (each also sets the trigger event),
   * `wake k`  — the k-th `triggerPoll.wait`: what other threads do while it lasts, as batches `(d, exts)`: `d` ticks after
@@ -62,8 +62,9 @@ inductive Outcome
 inductive Fn
   | doPoll
   | read (p : Nat)
-  | init                     -- `writeInitParams` + `initialReads` of the start-up round
-  | write                    -- `writeInitParams` behind the start-up round (makes up for what a broken-off round skipped)
+  | init                     -- `initialReads`
+  | write                    -- `writeInitParams`: in the start-up round, and once more behind it (makes up for what a
+                             --   round broken off by a communication failure skipped)
   deriving DecidableEq, Repr, Inhabited
 
 /-- start of a call made by the poll thread: time, module (index in the thread's module list), function, duration -/
@@ -369,14 +370,15 @@ structure ProRes where
   evs : List Event
   aborted : Bool            -- a `CommunicationFailedError` ended the initial round
 
-/-- `mobj.initialReads()` for every module of the thread (`writeInitParams` contains its own errors, 797-821,
-and is not a poll function).  A `CommunicationFailedError` aborts the round, every other exception is logged
-(after `fix: an exception in initialReads …`). -/
+/-- `mobj.writeInitParams(); mobj.initialReads()` for every module of the thread: two calls.  `writeInitParams` contains
+its own errors (its outcome is not looked at) and is not a poll function.  A `CommunicationFailedError` in `initialReads`
+aborts the round, every other exception is logged (after `fix: an exception in initialReads …`). -/
 def initAll (env : Env) : List Nat → PollState → List Event → ProRes
   | [], σ, evs => ⟨σ, evs, false⟩
   | i :: is, σ, evs =>
-    let r := call env σ i .init
-    if r.out = .comm then ⟨r.σ, evs ++ [r.ev], true⟩ else initAll env is r.σ (evs ++ [r.ev])
+    let w := call env σ i .write
+    let r := call env w.σ i .init
+    if r.out = .comm then ⟨r.σ, evs ++ [w.ev] ++ [r.ev], true⟩ else initAll env is r.σ (evs ++ [w.ev] ++ [r.ev])
 
 /-- `mobj.callPollFunc(rfunc, raise_com_failed=True)` for every polled parameter -/
 def readAll (env : Env) : List Entry → PollState → List Event → ProRes
